@@ -159,7 +159,7 @@ def exec_real(case):
     spec = simple_target_spec(np.random.default_rng(seed), d, "vector", zero=row["zero"])
     spec["width"] = [w * case.get("narrow", 1.0) for w in spec["width"]]  # likelihoods very narrow relative to the prior: many tiny temperature steps
     t = Target.from_spec(spec)
-    cfg = row_to_cfg(row, d)
+    cfg = row_to_cfg(row, d, seed)
     cfg["ess_ratio"] = case["ess_ratio"]
     np.random.seed(seed)
     s = make_sampler(t, cfg)
